@@ -132,6 +132,8 @@ def run(ctx):
         cases.append(gens.g1(rng))
     for _ in range(60 * k):
         cases.append(gens.g2(rng, order=rng.choice(["perm", "levelsorted", "none"])))
+    for _ in range(6 * k):
+        cases.append(gens.g2deep(rng, order="none"))
     for _ in range(30 * k):
         cases.append(gens.g3(rng))
     for _ in range(20 * k):
